@@ -439,7 +439,13 @@ impl From<HitObjectsState> for HitObjects {
         let events = state.events;
 
         let mut hit_objects = state.hit_objects;
-        hit_objects.sort_by(|a, b| a.start_time.total_cmp(&b.start_time));
+        // Numeric comparison so that `-0.0` and `0.0` are the same time and
+        // keep their file order; `total_cmp` is only the fallback for NaN.
+        hit_objects.sort_by(|a, b| {
+            a.start_time
+                .partial_cmp(&b.start_time)
+                .unwrap_or_else(|| a.start_time.total_cmp(&b.start_time))
+        });
 
         HitObjectsState::post_process_breaks(&mut hit_objects, &events);
         let mut bufs = CurveBuffers::default();
